@@ -105,8 +105,52 @@ def main():
     lin = [{"kind": "loc", "state": "linear", "locs": l, "ops": copy.deepcopy(o)} for l, o in gens]
     impl, model, mc = lr.run(idx + lin, nontrivial=lambda c: any(o["op"] in ("event", "searchRules") for o in c["ops"]) and any(o["op"] == "addRule" for o in c["ops"]))
     lr.cross_states(idx, lin, impl[:n], impl[n:], ops=("event",))
+    # unit-level tie of the pattern index itself: add/rem/search sequences on one core.PatternIndex against PI.mod / PI.search
+    nu = 1500 if not ck.thorough else 40000
+    ucases = []
+    for _ in range(nu):
+        rng = ck.rng
+        inside = rng.random() < 0.6
+        base = [simple_fact(rng, depth=rng.randint(1, 3), width=rng.randint(1, 4), homogeneous=inside) for _ in range(2)]
+        if inside: base = [ev_ok(b) for b in base]
+        ops, added = [], []
+        for _ in range(rng.randint(3, 12)):
+            r = rng.random()
+            d = rng.choice(base)
+            if r < 0.45:
+                pat = gen.pattern_from(rng, d, drop_prob=0.4, allow_anon=not inside and rng.random() < 0.3, repeat_prob=0.1, allow_propvar=not inside and rng.random() < 0.3)
+                if inside: pat = idx_ok_pattern(pat)
+                elif rng.random() < 0.2: pat = rng.choice([{}, {"a": {}}, {"b": []}, {"a": [True, False]}, {"a": [None]}, {"a": {"b": {}}, "c": 1}, {"a": ["?x", "1"]}, {"?p": 1}])
+                i = rng.choice(RIDS); added.append((i, pat))
+                ops.append({"op": "add", "id": i, "m": pat})
+            elif r < 0.6 and added:
+                i, pat = rng.choice(added)
+                if rng.random() < 0.2: pat = gen.pattern_from(rng, d)      # removing a pattern that was never added under this id
+                ops.append({"op": "rem", "id": i, "m": pat})
+            else:
+                ev = copy.deepcopy(d)
+                if rng.random() < 0.4: ev[rng.choice(gen.KEYS)] = gen.scalar(rng)
+                ops.append({"op": "search", "m": ev})
+        ucases.append({"kind": "pidx", "ops": ops})
+    ui = run_cases(lr.drv, ucases); um = run_cases(lr.mdl, ucases)
+    nbad = 0
+    for c, a, b in zip(ucases, ui, um):
+        ck.count(c)
+        oa, ob = (a or {}).get("outs"), (b or {}).get("outs")
+        if oa is None or ob is None or len(oa) != len(ob):
+            ck.violation("pattern index run failed: impl=%s model=%s" % (canon(a)[:200], canon(b)[:200]), {"case": c, "impl": a, "model": b}, tag="pidx"); continue
+        for k, (x, y) in enumerate(zip(oa, ob)):
+            lr.stats["pidx_ops"] += 1
+            if canon(x) != canon(y):
+                # a pattern or event the index rejects half-way leaves the Go trie partially extended exactly like the model; anything else is a broken tie
+                nbad += 1
+                if nbad <= 5:
+                    ck.violation("correspondence broken: core.PatternIndex and PI.mod/PI.search disagree at op %d (%s): impl=%s model=%s" % (k, c["ops"][k]["op"], canon(x)[:200], canon(y)[:200]),
+                                 {"case": {"kind": "pidx", "ops": c["ops"][: k + 1]}, "impl": x, "model": y}, tag="pidx")
+                break
     for c in idx[:2]:
         ck.sample({"state": c["state"], "locs": c["locs"], "ops": c["ops"][:6]})
+    ck.sample(ucases[0])
     lr.finish_cov("histories of AddRule (add / replace the when / scheduled) / RemRule / AddFact-with-the-same-id / EnableRule / Clear over 4 rule ids in a location "
                   "with 0-2 ancestor levels, then events (ProcessEvent and SearchRules), each run under IndexedState and LinearState; 80% of the histories stay inside the "
                   "index-complete fragment (IdxOK patterns, EvOK events), 20% leave it (empty containers, boolean arrays, heterogeneous arrays, property variables); "
